@@ -641,9 +641,18 @@ func validateV2Siacoins(ms *MidState, txn types.V2Transaction) error {
 		}
 	}
 
+	// NOTE: input values and rollovers are not covered by
+	// validateV2CurrencyOverflow, so the input sum must be computed with
+	// overflow checks; a sum that overflows cannot equal the output sum.
 	var inputSum, outputSum types.Currency
+	var inputOverflow bool
+	addInput := func(c types.Currency) {
+		if !inputOverflow {
+			inputSum, inputOverflow = inputSum.AddWithOverflow(c)
+		}
+	}
 	for _, sci := range txn.SiacoinInputs {
-		inputSum = inputSum.Add(sci.Parent.SiacoinOutput.Value)
+		addInput(sci.Parent.SiacoinOutput.Value)
 	}
 	for i, out := range txn.SiacoinOutputs {
 		if out.Value.IsZero() {
@@ -658,15 +667,17 @@ func validateV2Siacoins(ms *MidState, txn types.V2Transaction) error {
 		if r, ok := fcr.Resolution.(*types.V2FileContractRenewal); ok {
 			// a renewal creates a new contract, optionally "rolling over" funds
 			// from the old contract
-			inputSum = inputSum.Add(r.RenterRollover)
-			inputSum = inputSum.Add(r.HostRollover)
+			addInput(r.RenterRollover)
+			addInput(r.HostRollover)
 
 			rev := r.NewContract
 			outputSum = outputSum.Add(rev.RenterOutput.Value).Add(rev.HostOutput.Value).Add(ms.base.V2FileContractTax(rev))
 		}
 	}
 	outputSum = outputSum.Add(txn.MinerFee)
-	if inputSum != outputSum {
+	if inputOverflow {
+		return fmt.Errorf("siacoin inputs do not equal outputs (%v): inputs overflow", outputSum)
+	} else if inputSum != outputSum {
 		return fmt.Errorf("siacoin inputs (%v) do not equal outputs (%v)", inputSum, outputSum)
 	}
 
